@@ -150,7 +150,9 @@ class C03(HistoryCheck):
     N_OPS = {"quick": (8, 24), "thorough": (10, 40)}
     RULE = ("after every operation of a seeded history (45% of operations carry one non-conforming value aimed at one position: "
             "whole value, element, key / index, nested attribute, transform result, preparer result) every managed attribute of "
-            "every live instance is checked by an independent reference conformance checker. evaluations = operations executed; "
+            "every live instance is checked by an independent reference conformance checker (the class grammar of this check adds "
+            "Tuple[int, str], Tuple[int, ...] and an int-valued Literal; non-conforming values include values EQUAL to conforming ones "
+            "but of another type, and keyed containers whose own key function yields keys of the wrong type). evaluations = operations executed; "
             "distinct_nontrivial = distinct (route, attribute kind, outcome class) with at least one managed attribute holding a "
             "value.")
 
